@@ -257,8 +257,8 @@ def run_property(prop, cfg, tier, known, only=None):
             spec = specs[name]
             try:
                 enc = encode(spec, fns)
-            except Unsupported as u:
-                inconclusive(f"{name}: encoder gap: {u}")
+            except (Unsupported, KeyError, IndexError, AttributeError, ValueError, TypeError) as u:
+                inconclusive(f"{name}: encoder gap: {type(u).__name__}: {u}")
                 code = EXIT_INCONCLUSIVE if code == EXIT_OK else code
                 continue
             for s in (z3, cv):
@@ -399,7 +399,10 @@ def run_property(prop, cfg, tier, known, only=None):
                 code = EXIT_INCONCLUSIVE if code == EXIT_OK else code
             witnesses += feasible_ok + feasible_reject
             # translator / contract validation on concrete boundary inputs
-            tv = validate_translation(spec, enc, z3, binp, in_names)
+            try:
+                tv = validate_translation(spec, enc, z3, binp, in_names)
+            except Unsupported as u:
+                tv = {"compared": 0, "mismatches": [{"encoder gap": str(u)}]}
             sample["translator_validation"] = tv
             if tv["mismatches"]:
                 inconclusive(f"{name}: encoding and real function disagree on {len(tv['mismatches'])} concrete inputs, e.g. {tv['mismatches'][0]}")
